@@ -63,6 +63,10 @@ package datascope
 //@   ensures old(has(locker.data, key)) ==> value == old(locker.data[key])
 //@   ensures !old(has(locker.data, key)) && locker.parent != nil ==> value == pv
 //@   ensures !old(has(locker.data, key)) && locker.parent == nil ==> value == nil
+// a nested locked section takes the locker's own write lock and hands exactly its Unlock on
+//@ func (*DataLocker).LockData [C13]
+//@   acquires locker.mu
+//@   at_call newDataLocker requires $0 == locker.data && boundMethodOf($1, Unlock, locker.mu) && $2 == locker.parent
 //@ func (*DataLocker).Commit [C13]
 //@   requires locker.unlockCB != nil
 //@   trace dynamic.* as UNLOCKCB
